@@ -46,3 +46,19 @@ func Dump(p *load.Program, what, rel, recv, name string) {
 type fmtOut struct{}
 
 func (fmtOut) Write(b []byte) (int, error) { fmt.Print(string(b)); return len(b), nil }
+
+// DumpDiv prints all integer divisions in a package (developer aid).
+func DumpDiv(p *load.Program, rel string) {
+	for _, fn := range p.AllFuncs() {
+		pkg := fn.Pkg
+		for f := fn; pkg == nil && f != nil; f = f.Parent() {
+			pkg = f.Pkg
+		}
+		if pkg == nil || pkg.Pkg.Path() != load.Module+"/"+rel {
+			continue
+		}
+		for _, d := range an.IntDivisions(fn) {
+			fmt.Printf("%s  %s  divisor=%s  proof=%q\n", p.Pos(d.Instr.Pos()), load.FuncName(fn), an.Path(d.Divisor), d.Proof)
+		}
+	}
+}
